@@ -237,6 +237,11 @@ def catalogue(tier):
     add(DOT2, {"a": ["0.0", "0.1"], "b": ["0.1", "0.2"]})
     add(DOT2, {"a": ["0.9", "0.10", "0.11"], "b": ["0.9", "0.10", "0.11"]})
     add(DOT2, {"a": ["0.1.0", "0.1.1", "0.0.0"], "b": ["0.1"]})
+    # sibling tags sharing a decimal prefix (0.1 is NOT a parent of 0.10): seeded defect C05-1
+    add(DOT2, {"a": ["0.1", "0.10"], "b": ["0.1", "0.10"]})
+    add(DOT2, {"a": ["0.1", "0.10", "0.11"], "b": ["0.1", "0.10", "0.11"]})
+    add(DOT2, {"a": ["0.1.0", "0.10.0"], "b": ["0.1", "0.10"]})
+    add(CART2, {"a": ["0.1", "0.10"], "b": ["0.1", "0.10"]})
     add(DOT2, {"a": [], "b": ["0"]})
     add(DOT3, {"a": ["0.0.0", "0.0.1"], "b": ["0.0"], "c": ["0"]})
     add(DOT3, {"a": ["0.0", "0.1"], "b": ["0.0", "0.1"], "c": ["0.0", "0.1"]})
@@ -305,13 +310,13 @@ def main(argv=None):
             cb[i] = 0 if args.tier == "quick" else 1
         elif total >= 5 and args.tier == "quick":
             cb[i] = 0
-        elif i >= 20 and args.tier == "quick":
+        elif i >= 24 and args.tier == "quick":
             cb[i] = 0  # systematic part: all arrival permutations (free choices), default driver/db schedule
     with Explorer(f"checks.{PROP}", cases, workers=args.workers, seed=runner.seed()) as exp:
         stats, completed, levels = exp.run(bound, time_cap=args.time_cap or (280 if args.tier == "quick" else 1500),
                                            case_bounds=cb)
     runner.e1_report(rep, sys.modules[__name__], cases, stats, completed, levels, bound,
-                     samples=[cases[2], cases[9], cases[15]],
+                     samples=[cases[2], cases[9], cases[19]],
                      extra={"trees": sorted({tree_str(c["tree"]) for c in cases})})
     rep.coverage["rule"] = (
         "catalogue of (combinator tree, token streams per port: antichains of tags of depth 1..3, parent/child mixes "
